@@ -53,7 +53,7 @@ def canonical_order(msg):
     return msg
 
 
-_calls = [0]
+_calls = [0, 0]     # saves, loads
 
 
 def _scratch_path():
@@ -66,6 +66,7 @@ def save(ir):
     (`IR.save_protobuf(file_name)`), the others through the file-object one"""
     _calls[0] += 1
     if _calls[0] % 4 == 0:
+        # the same path again and again: a shorter file follows a longer one
         path = _scratch_path()
         with core.time_limit(60):
             ir.save_protobuf(path)
@@ -78,9 +79,9 @@ def save(ir):
 
 
 def load(gtirb, raw):
-    _calls[0] += 1
-    if _calls[0] % 4 == 1:
-        path = _scratch_path()
+    _calls[1] += 1
+    if _calls[1] % 4 == 1:
+        path = _scratch_path() + ".in"
         with open(path, "wb") as fh:
             fh.write(raw)
         with core.time_limit(60):
